@@ -192,6 +192,7 @@ struct Config
     int64_t  tick_ms{1000};
     double   ratio{0.5};
     uint32_t universe{6};
+    bool     fresh_thread{false}; // world seq: every call into the container runs on a newly created client thread
 
     js::Value to_json() const
     {
@@ -199,6 +200,8 @@ struct Config
         v.set("cont", cont_name(cont)).set("ts", ts).set("kt", (int)kt).set("vt", (int)vt);
         v.set("capacity", capacity).set("mlf", mlf).set("ttl_ms", ttl_ms).set("tick_ms", tick_ms);
         v.set("ratio", ratio).set("universe", universe);
+        if (fresh_thread)
+            v.set("fresh_thread", true);
         return v;
     }
     bool from_json(const js::Value& v)
@@ -214,6 +217,7 @@ struct Config
         tick_ms  = v.geti("tick_ms", 1000);
         ratio    = v.getd("ratio", 0.5);
         universe = (uint32_t)v.geti("universe", 6);
+        fresh_thread = v.getb("fresh_thread");
         if (capacity < 1)
             capacity = 1;
         if (universe < 1)
